@@ -50,7 +50,8 @@ Definition is_terminal (c : call) : bool := match c with Commit _ | Rollback _ =
 Definition terminals (cs : list call) : list call := filter is_terminal cs.
 
 (* what the body does when every failing statement reports its error to the body (the presupposition
-   of "returns the function's error"): the statements it issues and how it ends - independent of the
+   of "returns the function's error"): the statements it issues (Model.stmt_calls: one driver call each, database/sql's
+   three attempts for a prepared statement on a bad connection) and how it ends - independent of the
    logging switches *)
 Fixpoint spec_stmts (i : nat) (ss : list stmt) (final : outcome) : outcome * list call :=
   match ss with
@@ -58,11 +59,11 @@ Fixpoint spec_stmts (i : nat) (ss : list stmt) (final : outcome) : outcome * lis
   | s :: r =>
       if s_fail s then
         match s_react s with
-        | RReturn => (OErr (err_at (EExec i) (s_fault s)), [Exec i false])
-        | RPanic p => (OPanic p, [Exec i false])
-        | RIgnore => let (o, cs) := spec_stmts (S i) r final in (o, Exec i false :: cs)
+        | RReturn => (OErr (err_at (EExec i) (s_fault s)), stmt_calls i s)
+        | RPanic p => (OPanic p, stmt_calls i s)
+        | RIgnore => let (o, cs) := spec_stmts (S i) r final in (o, stmt_calls i s ++ cs)
         end
-      else let (o, cs) := spec_stmts (S i) r final in (o, Exec i true :: cs)
+      else let (o, cs) := spec_stmts (S i) r final in (o, stmt_calls i s ++ cs)
   end.
 Definition spec_body (b : body) : outcome * list call := spec_stmts 0 (b_stmts b) (b_final b).
 
@@ -103,14 +104,20 @@ Definition tx_allowed (f : faults) (b : body) (res : option err) (calls : list c
         end
     end.
 
-(* every statement that reached the driver and failed was seen by the body as a non-nil error
-   (seen: per issued statement, did the body get an error), whatever the log switches *)
-Fixpoint seen_ok (calls : list call) (seen : list bool) : bool :=
-  match calls with
-  | [] => match seen with [] => true | _ => false end
-  | Exec _ ok :: r => match seen with s :: seen' => Bool.eqb s (negb ok) && seen_ok r seen' | [] => false end
-  | _ :: r => seen_ok r seen
+(* every statement whose (last) driver answer was an error was seen by the body as a non-nil error, and
+   only those (seen: per issued statement, did the body get an error), whatever the log switches *)
+Fixpoint stmt_results (cs : list call) : list (nat * bool) :=
+  match cs with
+  | [] => []
+  | Exec i ok :: r =>
+      match stmt_results r with
+      | (j, ok') :: t => if Nat.eqb i j then (j, ok') :: t else (i, ok) :: (j, ok') :: t
+      | [] => [(i, ok)]
+      end
+  | _ :: r => stmt_results r
   end.
+Definition seen_ok (calls : list call) (seen : list bool) : bool :=
+  list_eqb Bool.eqb (map (fun p : nat * bool => negb (snd p)) (stmt_results calls)) seen.
 
 (* ------------------------------------------------------------ (2) rows -> destination *)
 Definition tag_name (f : field) : string :=
@@ -198,6 +205,21 @@ Fixpoint by_pos_copyable (lv : list (bool * kind)) (row : list cell) : bool :=
   | _, [] => true
   | [], _ :: _ => false
   end.
+
+(* no field silently left zero: every flattened field from index i on holds a non-zero value *)
+Definition cell_nonzero (c : cell) : bool :=
+  match c with CNull => false | CInt z => negb (Z.eqb z 0) | CStr s => negb (String.eqb s "") end.
+Definition nonblank (k : kind) (v : option lval) : bool :=
+  match v with Some x => negb (lval_eqb x (zero k)) | None => false end.
+Fixpoint filled_from (i : nat) (lv : list (bool * kind)) (d : dst) : bool :=
+  match lv with
+  | [] => true
+  | pk :: lv' => nonblank (snd pk) (nth i d None) && filled_from (S i) lv' d
+  end.
+
+(* every column carries the tag name of a top-level non-struct field *)
+Definition names_only_fields (fs : list field) (cols : list string) : bool :=
+  forallb (fun c => match field_named c fs with Some (FLeaf _ _ _) => true | _ => false end) cols.
 
 (* the property's reading of the method names: XxxPartial forms are the partial (non-strict) ones *)
 Definition spec_strict (m : meth) : bool :=
